@@ -294,6 +294,8 @@ func (c *FnCtx) runTop(rep *FnReport, kf *KnownFindings) (err error) {
 			if len(parts) == 2 {
 				if rs, ok := spec.Replays[strings.SplitN(parts[1], "~", 2)[0]]; ok {
 					o.Replay = rs
+				} else if rs, ok := spec.Replays[clauseLabelOf(o.Name)]; ok {
+					o.Replay = rs
 				}
 			}
 		}
@@ -304,8 +306,24 @@ func (c *FnCtx) runTop(rep *FnReport, kf *KnownFindings) (err error) {
 
 // frameCheck: every heap component outside the modifies clause is unchanged on objects that existed at entry.
 func (c *FnCtx) frameCheck(fr *Frame, rst *State) {
-	allowed := c.eng.patternMods(c, c.spec.Modifies)
+	allowed := c.eng.patternMods(c, c.specModPatterns(c.fn, c.spec))
+	var entryArgs []Val
+	for _, p := range c.fn.Params {
+		entryArgs = append(entryArgs, fr.vals[p])
+	}
+	om := c.objMods(c.fn, c.spec, entryArgs)
 	for _, k := range c.eng.compOrder {
+		if objs, ok := om[k]; ok {
+			// object-level modifies: every other pre-existing object is unchanged in this component
+			h0, h1 := c.heapGet(fr.entry, k), c.heapGet(rst, k)
+			if h0 == h1 {
+				continue
+			}
+			g := fmt.Sprintf("(forall ((r Int)) (=> (and (< 0 r) (< r |alloc0|) %s) (= (select %s r) (select %s r))))", exceptObjs("r", objs), h1, h0)
+			o := c.obligation(rst, "frame", k, g, c.fn.Pos())
+			o.Desc = "heap component " + k + " may only change on the objects named in the modifies clause"
+			continue
+		}
 		if allowed.all || allowed.comps[k] || strings.HasPrefix(k, "ghost$") {
 			continue
 		}
